@@ -13,15 +13,16 @@ import (
 // Rounds drives the block protocol used by C04/C05: a persistent store, per round a
 // block trie over it, child transactions merged or discarded, then a save.
 type Rounds struct {
-	Dir    string
-	PNDB   *util.PNodeDB
-	Store  *grocksdb.Store
-	Roots  [][]byte // Roots[r] = saved root of round r (round 0 = seed)
-	Refs   []*Ref   // reference content per saved round
-	Deads  [][]util.Node
-	Alpha  []byte
-	Lmax   int
-	Label  string
+	Base  int64 // version of the seed round
+	Dir   string
+	PNDB  *util.PNodeDB
+	Store *grocksdb.Store
+	Roots [][]byte // Roots[r] = saved root of round r (round 0 = seed)
+	Refs  []*Ref   // reference content per saved round
+	Deads [][]util.Node
+	Alpha []byte
+	Lmax  int
+	Label string
 }
 
 func NewRounds(label, dir string, seed int, alpha []byte, lmax int) *Rounds {
@@ -30,8 +31,9 @@ func NewRounds(label, dir string, seed int, alpha []byte, lmax int) *Rounds {
 		panic(err)
 	}
 	r := &Rounds{Dir: dir, PNDB: p, Store: grocksdb.VerifStore(dir), Alpha: alpha, Lmax: lmax, Label: label}
-	// round 0: the seed, saved through the same protocol
-	b := NewTrie(util.NewLevelNodeDB(util.NewMemoryNodeDB(), p, false), 0, nil)
+	// round 0: the seed, saved through the same protocol at version Base (round i runs at Base+i)
+	r.Base = int64(vp.Param("seedversion", 0))
+	b := NewTrie(util.NewLevelNodeDB(util.NewMemoryNodeDB(), p, false), r.Base, nil)
 	ref := NewRef()
 	ApplySeed(b, ref, seed)
 	if err := b.SaveChanges(context.Background(), p, false); err != nil {
